@@ -689,3 +689,42 @@ func Nest(leaf *LItem, d int) *LItem {
 	}
 	return it
 }
+
+// SiblingDepthCases: the nesting limit is a property of each root-to-leaf PATH, not of how many lists were seen
+// before: wide runs of empty / shallow lists followed or surrounded by deep branches, all within the depth limit
+// (after seeded change C01c-2: a depth counter leaking across sibling lists).
+func SiblingDepthCases() []*LItem {
+	empty := func() *LItem { return &LItem{Kind: "L"} }
+	u1 := func(v int) *LItem { return &LItem{Kind: "U", W: 1, Uints: []uint64{uint64(v)}} }
+	var out []*LItem
+	for _, n := range []int{63, 64, 65, 100, 300} {
+		it := &LItem{Kind: "L"}
+		for i := 0; i < n; i++ {
+			it.Kids = append(it.Kids, empty())
+		}
+		out = append(out, it)
+	}
+	for _, n := range []int{61, 62, 63, 70} { // records each holding one empty list
+		it := &LItem{Kind: "L"}
+		for i := 0; i < n; i++ {
+			it.Kids = append(it.Kids, &LItem{Kind: "L", Kids: []*LItem{u1(i % 200), empty()}})
+		}
+		out = append(out, it)
+	}
+	for _, k := range []int{1, 5, 40} { // k empty lists, then a branch as deep as the limit allows under this root
+		it := &LItem{Kind: "L"}
+		for i := 0; i < k; i++ {
+			it.Kids = append(it.Kids, empty())
+		}
+		it.Kids = append(it.Kids, Nest(u1(7), 63), Nest(empty(), 62))
+		out = append(out, it)
+	}
+	// deep branch first, then many shallow siblings, then another deep branch
+	it := &LItem{Kind: "L", Kids: []*LItem{Nest(u1(1), 63)}}
+	for i := 0; i < 80; i++ {
+		it.Kids = append(it.Kids, &LItem{Kind: "L", Kids: []*LItem{empty(), empty()}})
+	}
+	it.Kids = append(it.Kids, Nest(u1(2), 63))
+	out = append(out, it)
+	return out
+}
